@@ -157,6 +157,51 @@ theorem dwm_completes_when_drained {α} (raises : Nat → α → Option Err) (s 
         simp only [dwmStep, hf] at h ⊢
         exact key _ [.next x] (by simp) h
 
+/-- **dwm_run_eq_spec.**  For every event trace — any interleaving of source notifications, signals of the delay
+observables (live, finished, stale, never subscribed) and of the subscription delay — the code (CompositeDisposable
+`delays`, `at_end`, Serial `subscription`) behaves as the history rule `dwmSpec`: an element is delivered by the first
+signal (element or completion) of its own delay observable and by nothing else; the completion goes out once the source
+has completed and every element seen has been delivered; errors end the sequence. -/
+theorem dwm_run_eq_spec {α} (raises : Nat → α → Option Err) (hasSubDelay : Bool) (tr : List (Nat × MEv α)) :
+    dwmRun raises hasSubDelay tr = dwmSpec raises hasSubDelay tr :=
+  Timed.dwm_run_eq_spec raises hasSubDelay tr
+
+/-- the rule read off `dwmSpec`: (1) the first signal of the delay observable of a seen, not yet delivered element
+delivers it and records it as fired; (2) a signal for a fired ordinal does nothing — so every element is delivered
+exactly once —; (3) `fired` only grows. -/
+theorem dwm_spec_exactly_once {α} (raises : Nat → α → Option Err) (a : DwmAbs α) (k : Nat) :
+    (∀ k' x sig, a.fired.contains k = false → a.seen.find? (fun p => p.1 == k) = some (k', x) → (∀ e, sig ≠ Sig.error e) →
+        (dwmAbsStep raises a (.inner k sig)).out.head? = some (.next x) ∧ k ∈ (dwmAbsStep raises a (.inner k sig)).st.fired)
+    ∧ (a.fired.contains k = true → ∀ sig, (dwmAbsStep raises a (.inner k sig)).out = []
+        ∧ (dwmAbsStep raises a (.inner k sig)).st.fired = a.fired)
+    ∧ (∀ ev, k ∈ a.fired → k ∈ (dwmAbsStep raises a ev).st.fired) := by
+  refine ⟨?_, ?_, ?_⟩
+  · intro k' x sig hf hs hne
+    cases sig with
+    | error e => exact absurd rfl (hne e)
+    | next => simp only [dwmAbsStep, hf, Bool.false_eq_true, if_false, hs, dwmAbsFinish]; simp
+    | completed => simp only [dwmAbsStep, hf, Bool.false_eq_true, if_false, hs, dwmAbsFinish]; simp
+  · intro hf sig
+    simp only [dwmAbsStep, hf, if_true]; simp
+  · intro ev hk
+    cases ev with
+    | sub sg => cases hl : a.subLive <;> cases sg <;> simp [dwmAbsStep, hl, hk]
+    | src n =>
+      cases hl : a.srcLive
+      · simp [dwmAbsStep, hl, hk]
+      · cases n with
+        | next x => cases hr : raises a.count x <;> simp [dwmAbsStep, hl, hr, hk]
+        | error e => simp [dwmAbsStep, hl, hk]
+        | completed => simp [dwmAbsStep, hl, hk, dwmAbsFinish]
+    | inner j sig =>
+      cases hc : a.fired.contains j
+      · cases hfind : a.seen.find? (fun p => p.1 == j) with
+        | none => simp only [dwmAbsStep, hc, hfind, Bool.false_eq_true, if_false]; exact hk
+        | some kx =>
+          obtain ⟨k', x⟩ := kx
+          cases sig <;> simp only [dwmAbsStep, hc, hfind, Bool.false_eq_true, if_false, dwmAbsFinish] <;> simp [hk]
+      · simp only [dwmAbsStep, hc, if_true]; exact hk
+
 /-- element 0 delivered at the first signal of its delay observable; the later signal and the stale one do nothing;
 completion once the source completed and nothing waits -/
 example : dwmRun (fun _ _ => none) false
